@@ -12,6 +12,8 @@ import (
 func init() {
 	register("C08", func(c *core.Ctx, tier string) {
 		checkUnderFlushMu(c, "C08.10")
+		upgradeAttemptConcludedOnce(c, "C08.12")
+		c19Cancelled(c, "C08.11") // a cancelled upgrade timeout does not fire
 		serverEffects(c, "C08.8")
 		c08Gate(c)
 		c08SwitchOnlyOnUpgrade(c)
@@ -46,7 +48,7 @@ func boolMethodGuard(name string, want bool) core.Guard {
 
 func c08Gate(c *core.Ctx) {
 	const R = "C08.1"
-	c.Rule(R, "gate (sibling agreement onWebSocket ∥ OnWebTransportSession): MaybeUpgrade is dominated by clients.Load(id) found ∧ !Upgrading() ∧ !Upgraded() ∧ CreateTransport err == nil; every failing edge closes the candidate connection and cannot reach MaybeUpgrade")
+	c.Rule(R, "gate (sibling agreement onWebSocket ∥ OnWebTransportSession): MaybeUpgrade is dominated by clients.Load(id) found ∧ !Upgrading() ∧ !Upgraded() ∧ Upgrades(client.Transport().Name()).Has(candidate transport) ∧ CreateTransport err == nil; every failing edge closes the candidate connection and cannot reach MaybeUpgrade")
 	for _, k := range []string{srvOnWS, srvOnWT} {
 		u := c.Fn(R, k)
 		if u == nil {
@@ -73,6 +75,9 @@ func c08Gate(c *core.Ctx) {
 			"!Upgrading": g.GuardedBy(mu.Loc, boolMethodGuard("Upgrading", false)),
 			"!Upgraded":  g.GuardedBy(mu.Loc, boolMethodGuard("Upgraded", false)),
 			"created":    ct != nil && g.GuardedBy(mu.Loc, nilGuard(false, func(x *core.Unit, e ast.Expr) bool { return tupleOf(x, e, ct.Expr, 1) })),
+			// the session's current transport offers this upgrade (empty when upgrades are disabled; a websocket session
+			// offers none) — fix 3f64a39
+			"offered": g.GuardedBy(mu.Loc, upgradeOffered(true)),
 		}
 		for name, ok := range conds {
 			c.Check(R, keyf("%s/gate:%s", k, name), mu.Pos(), ok, "MaybeUpgrade only on this edge")
@@ -86,7 +91,7 @@ func c08Gate(c *core.Ctx) {
 				closes++
 			}
 		}
-		c.Check(R, k+"/refusing-edges-close-candidate", u.Pos(), closes >= 4, keyf("%d connection closes on edges that cannot reach MaybeUpgrade (unknown / upgrading / upgraded / create failure)", closes))
+		c.Check(R, k+"/refusing-edges-close-candidate", u.Pos(), closes >= 5, keyf("%d connection closes on edges that cannot reach MaybeUpgrade (unknown / upgrading / upgraded / not offered / create failure)", closes))
 		// each refusing edge closes the candidate itself (a refused candidate that is merely dropped stays connected, unanswered, forever)
 		refusals := []struct {
 			name  string
@@ -95,6 +100,7 @@ func c08Gate(c *core.Ctx) {
 			{"unknown-session", notFound()},
 			{"upgrading", boolMethodGuard("Upgrading", true)},
 			{"upgraded", boolMethodGuard("Upgraded", true)},
+			{"not-offered", upgradeOffered(false)},
 		}
 		if ct != nil {
 			refusals = append(refusals, struct {
@@ -386,10 +392,11 @@ func c08Cleanup(c *core.Ctx) {
 		for _, cc := range closes {
 			ok = ok && g.Dominates(cln.Loc, cc.Loc)
 		}
-		// cleanup is unconditional: whatever the candidate's state, the session must stop being marked as upgrading
+		// cleanup is unconditional: whatever the candidate's state, the session must stop being marked as upgrading —
+		// except on the edge where another exit path has already concluded the attempt (and run the cleanup), fix dbd3d2b
 		if ok {
 			for _, r := range returnsIn(ex.unit) {
-				ok = ok && g.Dominates(cln.Loc, r.Loc)
+				ok = ok && (g.Dominates(cln.Loc, r.Loc) || g.GuardedBy(r.Loc, concludeWon(false)))
 			}
 		}
 		c.Check(R, keyf("%s$%s/cleanup≺candidate.Close", sockUpgrade, ex.key), ex.unit.Pos(), ok, keyf("cleanup first, then Close on the candidate only (%d other closes)", bad))
@@ -612,5 +619,55 @@ func c08ListenerBeforeReader(c *core.Ctx) {
 			}
 		}
 		c.Check(R, k+"/go-message-before-listener", pos, !started, "the reader goroutine is started by the constructor, i.e. before any owner can attach its packet listener")
+	}
+}
+
+// concludeWon: guard "conclude() returned want" — the claim of an upgrade
+// attempt's single conclusion (fix dbd3d2b).
+func concludeWon(want bool) core.Guard {
+	return func(u *core.Unit, br core.Branch) int {
+		if br.IsCase {
+			return 0
+		}
+		ce, ok := ast.Unparen(u.Deep(br.Cond)).(*ast.CallExpr)
+		if !ok {
+			return 0
+		}
+		if id, isID := ce.Fun.(*ast.Ident); !isID || id.Name != "conclude" {
+			return 0
+		}
+		if want {
+			return 1
+		}
+		return -1
+	}
+}
+
+// upgradeOffered: guard "Upgrades(<session>.Transport().Name()).Has(x) == want".
+func upgradeOffered(want bool) core.Guard {
+	return func(u *core.Unit, br core.Branch) int {
+		if br.IsCase {
+			return 0
+		}
+		ce, key := u.AsCall(br.Cond)
+		if ce == nil || !strings.HasSuffix(key, ".Has") {
+			return 0
+		}
+		se, ok := ce.Fun.(*ast.SelectorExpr)
+		if !ok {
+			return 0
+		}
+		inner, ikey := u.AsCall(se.X)
+		if inner == nil || !strings.HasSuffix(ikey, ".Upgrades") || len(inner.Args) != 1 {
+			return 0
+		}
+		// the argument names the session's current transport
+		if _, nkey := u.AsCall(inner.Args[0]); !strings.HasSuffix(nkey, ".Name") {
+			return 0
+		}
+		if want {
+			return 1
+		}
+		return -1
 	}
 }
